@@ -3,7 +3,7 @@ import GMGProofs.Lemmas.CycleSpec
 # FMG start-up (`initializeSolution`) refines nested iteration
 core Lean only.
 -/
-namespace Cycle
+namespace MGCycle
 variable {V : Type}
 
 /-- the extrapolated cycle is used on level 0 only -/
@@ -108,4 +108,4 @@ theorem initSolution_nofmg (o : Ops V) (c : Cfg) (fk : Kind) (fi : Nat) (ex fgs 
     exec o (initSolution c false fk fi ex fgs start) m (0, .sol) = o.zero 0 := by
   simp [initSolution, stepI]
 
-end Cycle
+end MGCycle
